@@ -16,6 +16,8 @@ var Registry = map[string]func(*core.Run){
 	"C12": C12,
 	"C14": C14,
 	"C16": C16,
+	"C17": C17,
+	"C20": C20,
 	"C04": C04,
 	"C05": C05,
 }
